@@ -4,6 +4,7 @@ import (
 	"encoding/json"
 	"fmt"
 	"os"
+	"regexp"
 	"strings"
 
 	"verifharness/internal/hx"
@@ -86,6 +87,12 @@ func classify(cl string, r buildOutcome, o typesOutcome, min *Prog) string {
 
 var knownClassSeen = map[string]int{}
 
+var (
+	labeledContinue = regexp.MustCompile(`continue L\d+`)
+	labeledBreak    = regexp.MustCompile(`break L\d+`)
+	labeledRange    = regexp.MustCompile(`L\d+: for [^{]*range`)
+)
+
 // classifyU recognises classes of recorded findings on the source of a failing case of the text
 // streams.
 //
@@ -93,7 +100,22 @@ var knownClassSeen = map[string]int{}
 //     rejects with "missing return", and turning every `for range "ab"` into a loop with a
 //     condition (never terminating either, for the specification) makes Build reject it too: the
 //     only cause is that Build takes a `for` with a range clause for a terminating statement.
+//   - continue-label-not-implemented / break-label-in-range-not-implemented: Build panics with
+//     "internal error: not implemented" and the program has a labeled continue, respectively a
+//     labeled break together with a labeled range loop (the emitter has no code for a labeled
+//     continue, nor for a labeled break that leaves a range loop other than from a nested loop).
 func classifyU(cl, src string) string {
+	if cl == "build-panics" {
+		if r := buildReal(src); r.Class == "panic" && strings.Contains(r.Msg, "internal error: not implemented") {
+			switch {
+			case labeledContinue.MatchString(src):
+				return "continue-label-not-implemented"
+			case labeledRange.MatchString(src) && labeledBreak.MatchString(src):
+				return "break-label-in-range-not-implemented"
+			}
+		}
+		return ""
+	}
 	if cl == "accepts-what-go/types-rejects" && strings.Contains(src, `for range "ab"`) {
 		_, o := evalSrc(src)
 		if !o.OK && strings.Contains(o.Msg, "missing return") {
@@ -226,7 +248,7 @@ func findingSrc(min string) string {
 
 func run(c *hx.Ctx) error {
 	res := c.Res
-	res.Rule = "generated function bodies of 3–12 declarations/assignments over the 15 basic types (base programs, ≈70% accepted by go/types) and one single-point mutant of each (20 mutation kinds: other identifier, wrap/drop conversion, swap operator, boundary constant, typed literal, shift-count kind, nil, random subexpression, undefined name, delete/duplicate/swap statement, changed declared type, :=/=, var/const, assign to other name, forced comparison, dropped operator, unused variable); systematic programs (every ordered pair of basic types under an operator of each class with variable/constant/untyped operands; every integer type at min-1, min, max, max+1 in 9 contexts; 19 count kinds × 9 shifted operands); small streams outside the model judged by Build-vs-go/types only (complex/interface operands, non-constant shifts of untyped constants, package-level declarations, imports); a case is non-trivial when it has at least one operator or conversion; distinct by source text"
+	res.Rule = "generated function bodies of 3–12 declarations/assignments over the 15 basic types (base programs, ≈70% accepted by go/types) and one single-point mutant of each (20 mutation kinds: other identifier, wrap/drop conversion, swap operator, boundary constant, typed literal, shift-count kind, nil, random subexpression, undefined name, delete/duplicate/swap statement, changed declared type, :=/=, var/const, assign to other name, forced comparison, dropped operator, unused variable); systematic programs (every ordered pair of basic types under an operator of each class with variable/constant/untyped operands; every integer type at min-1, min, max, max+1 in 9 contexts; 19 count kinds × 9 shifted operands); a declaration/use stream (multi-name := with partial redeclaration, multi-value calls, assigned-never-read, closures, shadowing, if/for/switch init, blank identifier, labels, imports) and a terminating-statement stream (functions with results ending in every statement form of the specification's list, half of them terminating by construction with a break/continue injected at some depth; skeleton also judged by the Lean terminating predicate); small streams outside the model judged by Build-vs-go/types only (complex/interface operands, non-constant shifts of untyped constants, package-level declarations, imports); a case is non-trivial when it has at least one operator or conversion; distinct by source text"
 
 	if c.Replay != "" {
 		return replay(c)
